@@ -239,6 +239,11 @@ class NEval:
     def getattr_(self, base, attr):
         if base is None:
             raise SpecRuntimeError(f"attribute {attr} of None")
+        if not self.in_old and self.snap is not None and id(base) in self.snap.orig_of:
+            # a reference obtained from the old state, read in the current state: same object, current fields
+            base = self.snap.by_id.get(self.snap.orig_of[id(base)], base)
+        elif self.in_old:
+            base = self.to_old(base)
         key = (type(base).__name__, attr)
         if key in GHOST_FIELDS:
             return GHOST_FIELDS[key](base)
@@ -250,8 +255,12 @@ class NEval:
             if node.attr not in env.get("__ghost__", {}):
                 raise SkipClause(f"ghost.{node.attr}")
             return env["__ghost__"][node.attr]
-        if node.attr.startswith("g_"):
-            raise SkipClause(node.attr)
+        if node.attr.startswith("g_") or node.attr == "blocking":
+            base_ = self.ev(node.value)
+            if base_ is not None and not hasattr(base_, node.attr) and (type(base_).__name__, node.attr) not in GHOST_FIELDS:
+                raise SkipClause(node.attr)      # a ghost field the real class does not carry
+            if base_ is None:
+                return None
         base = self.ev(node.value)
         if isinstance(base, type) and issubclass(base, enum.Enum):
             return base[node.attr]
@@ -575,6 +584,9 @@ class NEval:
         return {self.getattr_(x, "name") for x in self.ev(node.args[0])}
 
     def fn_fold_hint(self, node):
+        return True
+
+    def fn_card_subset_hint(self, node):
         return True
 
     def fn_prefix(self, node):
